@@ -83,12 +83,15 @@ IsDyadic(x, ch) == WExact(WMul(x, WPow2(40)), ch)
 \* exact numerator A = c * N; the exact result is A / D
 Num(i, j, c) == WMulChunks(c, CF(i, j).n)
 Den(i, j) == CF(i, j).d
+\* A floating-point source may hold a fractional count  c / 2^ce  (ce in 0..2): the exact result is then
+\* c N / (D 2^ce) - the same formulas with the chunk 2^ce appended to the denominator.
+DenE(i, j, ce) == IF ce = 0 THEN Den(i, j) ELSE Den(i, j) \o <<2 ^ ce>>
 
 \* everything the preconditions need about one input, computed once
-UCtx(i, j, c) ==
-    LET a == Num(i, j, c) d == Den(i, j) dw == WProd(d) IN
+UCtx(i, j, c, ce) ==
+    LET a == Num(i, j, c) d == DenE(i, j, ce) dw == WProd(d) IN
     [a |-> a, dw |-> dw, t |-> WTrunc(a, d), f |-> WFloor(a, d), ce |-> WCeil(a, d), dy |-> IsDyadic(a, d),
-     apd |-> WAdd(a, dw), amd |-> WSub(a, dw), d1 |-> (d = <<>>)]
+     apd |-> WAdd(a, dw), amd |-> WSub(a, dw), d1 |-> (Den(i, j) = <<>>)]
 
 CastPreC(rf, rt, c, x) ==
     LET cr == CastCR(rt, rf) IN
@@ -96,9 +99,9 @@ CastPreC(rf, rt, c, x) ==
     /\ RepFits(cr, x.a)
     /\ (cr = "f64" => RepFits("f64", x.dw))
     /\ IF rt = "f64" THEN x.dy ELSE RepFits(rt, x.t)
-CastPre(i, j, rf, rt, c) == CastPreC(rf, rt, c, UCtx(i, j, c))
-CastVal(i, j, rt, c) ==
-    LET a == Num(i, j, c) d == Den(i, j) IN IF rt = "f64" THEN Dyadic(a, d) ELSE V(WTrunc(a, d))
+CastPre(i, j, rf, rt, c, ce) == CastPreC(rf, rt, c, UCtx(i, j, c, ce))
+CastVal(i, j, rt, c, ce) ==
+    LET a == Num(i, j, c) d == DenE(i, j, ce) IN IF rt = "f64" THEN Dyadic(a, d) ELSE V(WTrunc(a, d))
 
 \* floor / ceil / round: greatest t <= d / least t >= d / nearest, ties to even.  The reference algorithm
 \* compares through common_type<To, From>, where t and d have the counts t * D and c * N: both, and the
@@ -109,10 +112,10 @@ RoundPathPreC(rf, rt, c, x) ==
     /\ RepFits(ct, x.apd) /\ RepFits(ct, x.amd)
 FloorPreC(rf, rt, c, x) == RoundPathPreC(rf, rt, c, x) /\ (IsInt(rt) => RepFits(rt, x.f))
 CeilPreC(rf, rt, c, x) == RoundPathPreC(rf, rt, c, x) /\ (IsInt(rt) => RepFits(rt, x.ce))
-FloorPre(i, j, rf, rt, c) == FloorPreC(rf, rt, c, UCtx(i, j, c))
-CeilPre(i, j, rf, rt, c) == CeilPreC(rf, rt, c, UCtx(i, j, c))
-FloorVal(i, j, rt, c) == IF rt = "f64" THEN Dyadic(Num(i, j, c), Den(i, j)) ELSE V(WFloor(Num(i, j, c), Den(i, j)))
-CeilVal(i, j, rt, c) == IF rt = "f64" THEN Dyadic(Num(i, j, c), Den(i, j)) ELSE V(WCeil(Num(i, j, c), Den(i, j)))
+FloorPre(i, j, rf, rt, c, ce) == FloorPreC(rf, rt, c, UCtx(i, j, c, ce))
+CeilPre(i, j, rf, rt, c, ce) == CeilPreC(rf, rt, c, UCtx(i, j, c, ce))
+FloorVal(i, j, rt, c, ce) == IF rt = "f64" THEN Dyadic(Num(i, j, c), DenE(i, j, ce)) ELSE V(WFloor(Num(i, j, c), DenE(i, j, ce)))
+CeilVal(i, j, rt, c, ce) == IF rt = "f64" THEN Dyadic(Num(i, j, c), DenE(i, j, ce)) ELSE V(WCeil(Num(i, j, c), DenE(i, j, ce)))
 
 \* round: To::rep must not be floating ([time.duration.alg])
 RoundW(a, d) ==
@@ -125,8 +128,8 @@ RoundW(a, d) ==
 RoundPreC(rf, rt, c, x) ==
     /\ IsInt(rt) /\ RoundPathPreC(rf, rt, c, x)
     /\ RepFits(rt, x.f) /\ RepFits(rt, WSucc(x.f))
-RoundPre(i, j, rf, rt, c) == RoundPreC(rf, rt, c, UCtx(i, j, c))
-RoundVal(i, j, rt, c) == V(RoundW(Num(i, j, c), Den(i, j)))
+RoundPre(i, j, rf, rt, c, ce) == RoundPreC(rf, rt, c, UCtx(i, j, c, ce))
+RoundVal(i, j, rt, c, ce) == V(RoundW(Num(i, j, c), DenE(i, j, ce)))
 
 \* converting constructor [time.duration.cons]: participates iff the target is floating, or the factor
 \* is integral and the source is not floating; value = duration_cast
@@ -140,15 +143,17 @@ UPreC(op, rf, rt, c, x) ==
       [] op = "conv" -> ConvAllowedC(rf, rt, x.d1) /\ CastPreC(rf, rt, c, x)
 \* the same context, computing only the fields the precondition of (op, rt) reads (the judge evaluates one
 \* combination per event; Duration.tla shares one full context among all combinations of an input)
-UCtxFor(op, rt, i, j, c) ==
-    LET a == Num(i, j, c) d == Den(i, j) dw == WProd(d) rnd == op \in {"floor", "ceil", "round"} IN
+UCtxFor(op, rt, i, j, c, ce) ==
+    LET a == Num(i, j, c) d == DenE(i, j, ce) dw == WProd(d) rnd == op \in {"floor", "ceil", "round"} IN
     [a |-> a, dw |-> dw,
      t |-> IF rt = "f64" THEN WZero ELSE WTrunc(a, d),
      f |-> IF op \in {"floor", "round"} /\ rt # "f64" THEN WFloor(a, d) ELSE WZero,
      ce |-> IF op = "ceil" /\ rt # "f64" THEN WCeil(a, d) ELSE WZero,
      dy |-> IF rt = "f64" THEN IsDyadic(a, d) ELSE FALSE,
-     apd |-> IF rnd THEN WAdd(a, dw) ELSE WZero, amd |-> IF rnd THEN WSub(a, dw) ELSE WZero, d1 |-> (d = <<>>)]
-UPre(op, i, j, rf, rt, c) == UPreC(op, rf, rt, c, UCtxFor(op, rt, i, j, c))
+     apd |-> IF rnd THEN WAdd(a, dw) ELSE WZero, amd |-> IF rnd THEN WSub(a, dw) ELSE WZero, d1 |-> (Den(i, j) = <<>>)]
+\* a fractional count needs a floating-point source
+FracOK(rf, ce) == ce \in 0..2 /\ (ce > 0 => rf = "f64")
+UPre(op, i, j, rf, rt, c, ce) == FracOK(rf, ce) /\ UPreC(op, rf, rt, c, UCtxFor(op, rt, i, j, c, ce))
 
 \* declarative readings used as laws (Duration.tla) ------------------------------------------------
 \* t is the truncated / floor / ceiling quotient of a by D (D > 0 wide)
